@@ -167,12 +167,13 @@ Section Plan.
     (forall s, In s R -> uuids s <> [] /\ skind s = KFG /\ sid s = 0) /\
     NoDup (flat_map uuids R) /\
     (forall u, In u (flat_map uuids R) <-> In u (ids g)) /\
-    (forall s a, In s R -> (In a (req s) <-> exists u, In u (uuids s) /\ anc g a u)).
+    (forall s a, In s R -> (In a (req s) <-> exists u, In u (uuids s) /\ anc g a u)) /\
+    (forall s x y, In s R -> In x (uuids s) -> In y (uuids s) -> grp_of g x = grp_of g y).
   Proof.
     pose proof (graph_ok_erase g Hok) as Hok'. pose proof (strict_erase g) as Hs'.
     destruct (plan_facts ord (erase g) Hord Hok' Hs') as (_ & F2 & F3 & F4 & _ & F6).
     rewrite (plan_of_erase ord g Hord Hok Hgc) in F2, F3, F4, F6. unfold plan_of in F2, F3, F4, F6.
-    rewrite all_uuids_number in F3, F4. split; [|split; [|split]].
+    rewrite all_uuids_number in F3, F4. split; [|split; [|split; [|split]]].
     - intros s Hs. destruct (In_nth_error _ _ Hs) as [j Hj].
       pose proof (number_In R 0 j s Hj) as Hin. destruct (F2 _ Hin) as [A1 A2].
       rewrite uuids_set_sid in A1. split; [exact A1|]. split; [exact A2|].
@@ -183,6 +184,11 @@ Section Plan.
     - intros s a Hs. destruct (In_nth_error _ _ Hs) as [j Hj].
       pose proof (number_In R 0 j s Hj) as Hin. specialize (F6 _ a Hin). rewrite req_set_sid, uuids_set_sid in F6.
       rewrite F6. split; intros [u [Hu Ha]]; exists u; (split; [exact Hu | apply anc_erase; exact Ha]).
+    - intros s x y Hs Hx Hy. rewrite <- (raw_plan_erase ord g Hord Hok Hgc) in Hs.
+      apply (in_raw ord (erase g) Hord Hok' Hs') in Hs. destruct Hs as (e & lvl & He & Hl & E). subst s.
+      apply (proj1 (in_uuids_step ord (erase g) Hord lvl x)) in Hx. apply (proj1 (in_uuids_step ord (erase g) Hord lvl y)) in Hy.
+      destruct (level_same ord (erase g) Hord Hok' e lvl x y He Hl Hx Hy) as [Eg _].
+      rewrite !grp_of_erase in Eg. exact Eg.
   Qed.
 
   Lemma closure_anc : forall a c, In a (aget0 c cl) <-> anc g a c.
@@ -339,7 +345,7 @@ Section Plan.
        exists s p i, In s R /\ In p (dem s) /\ uuids (bs b) = [i] /\ tb <= i /\ req (bs b) = [p] /\
                      (b_from b, b_cfw b, b_fgrp b, b_grp b) = key_of g (any_of s) p).
   Proof.
-    destruct raw_facts as (F1 & F2 & F3 & F4). destruct E0_spec as (ncF & S1 & S2 & S3).
+    destruct raw_facts as (F1 & F2 & F3 & F4 & _). destruct E0_spec as (ncF & S1 & S2 & S3).
     split; [|split; [exact planB_uuids_nodup|split; [|split]]].
     - intros b Hb. apply in_planB_raw in Hb. destruct Hb as [x [Hx [Hb|[e [He [Hn Hb]]]]]]; subst b.
       + cbn. apply (F1 (fst x)). apply (S3 x Hx).
